@@ -61,7 +61,9 @@ RULE = ("1-4 battery sets of 1-3 batteries x 1-3 inverters; per-component bounds
         "timestamps, components delayed for 1-3 samples (< 2 s data age) or stopped for > 2 s and resumed (samples during "
         "such a silence are outside 'the same complete data' and not judged), each followed by tighter bounds of that "
         "component.  14% of the cases carry batteries reporting capacity 0 (one battery / a whole set / every set; every "
-        "set = the algorithm defines no min powers: oracle only)")
+        "set = the algorithm defines no min powers: oracle only).  Plus histories with tiny relative changes of ONE bound per "
+        "sample (1e-7, 1e-8, 1e-10, 1e-12, 2^-52; of one component or of its whole set; probes exactly on the new and the "
+        "previously streamed bound) and long drifts of one 1:1 set over 150-400 samples (every 60th sample judged)")
 
 
 def anchors_of(adv: dict | None, enf: dict | None) -> list[Fraction]:
@@ -301,6 +303,51 @@ def gen_stream_steps(rng: random.Random) -> list[list[dict]]:
     return steps
 
 
+TINY = [Fraction(1, 10**7), Fraction(1, 10**8), Fraction(1, 10**10), Fraction(1, 10**12), Fraction(1, 2**52)]
+
+
+def gen_tiny_history(rng: random.Random, long: bool = False) -> list[list[dict]]:
+    """Tiny relative changes (1e-7 … 1e-12, 1 ulp = 2^-52) of ONE bound per sample: of one component, or of that bound
+    of every component of its battery set (so the set's aggregate moves whichever side binds).  Short histories of 3-6
+    samples, or — `long` — one 1:1 set drifting for hundreds of samples (each step far below any tolerance, the total
+    not).  The requests of every judged sample sit exactly on the new and on the previously streamed bound values."""
+    import copy
+
+    for _ in range(40):
+        groups = g.gen_c17_groups(rng, True, incomplete=0.0)
+        if long:
+            groups = groups[:1]
+            groups[0]["bats"], groups[0]["invs"] = groups[0]["bats"][:1], groups[0]["invs"][:1]
+        if g.is_complete(groups) and g.is_consistent(groups) and not g.manager_unmodelled(groups) \
+                and all(b["working"] for gr in groups for b in gr["bats"]) \
+                and not any(b.get("cap") == "0" for gr in groups for b in gr["bats"]):
+            break
+    key = rng.choice(["iu", "iu", "il", "il", "eu", "el"])
+    gi = rng.randrange(len(groups))
+    members = groups[gi]["bats"] + groups[gi]["invs"]
+    if all(Fraction(c[key]) == 0 for c in members):
+        key = "iu" if any(Fraction(c["iu"]) != 0 for c in members) else "il"
+    whole_set = long or rng.random() < 0.6
+    ti = rng.randrange(len(members))
+    eps = rng.choice(TINY[:3] if long else TINY)
+    shrink = key in ("il", "iu")                    # inclusion bounds shrink, exclusion bounds grow: stale = too generous
+    n = rng.choice([150, 300, 400]) if long else rng.randint(3, 6)
+    steps = [groups]
+    base = copy.deepcopy(groups)
+    for k in range(1, n):
+        nxt = copy.deepcopy(steps[-1])
+        ms = nxt[gi]["bats"] + nxt[gi]["invs"]
+        ms0 = base[gi]["bats"] + base[gi]["invs"]
+        for c, c0 in (list(zip(ms, ms0)) if whole_set else [(ms[ti], ms0[ti])]):
+            # linear in the sample index: the same relative step per sample, small denominators over long histories
+            v = Fraction(c0[key]) * ((1 - k * eps) if shrink else (1 + k * eps))
+            c[key] = g.out_rat(v)
+        if not g.is_consistent(nxt):
+            nxt = copy.deepcopy(steps[-1])
+        steps.append(nxt)
+    return steps
+
+
 def decorate_history(rng: random.Random, steps: list[list[dict]]) -> list[list[dict]]:
     """Message timestamps and arrival patterns on top of a history of values: one or two components send ONE sample
     stamped older than / equal to their previous one, or keep sending decreasing timestamps (replay after a
@@ -360,7 +407,7 @@ def decorate_history(rng: random.Random, steps: list[list[dict]]) -> list[list[d
 
 
 def check_stream(ctx: Ctx, steps: list[list[dict]], rng: random.Random, cases: list, outs: list,
-                 powers: list[str] | None = None, only_last: bool = False) -> None:
+                 powers: list[str] | None = None, only_last: bool = False, stride: int = 1) -> None:
     """Every sample of the history: the bounds streamed by the real `SendOnUpdate` after that sample vs the real manager
     on the data of that sample — the C17 clauses with `adv` := the STREAMED value (what a subscriber of the pool acts
     on), and the model (bounds of the latest data) compared with it."""
@@ -368,6 +415,8 @@ def check_stream(ctx: Ctx, steps: list[list[dict]], rng: random.Random, cases: l
     for k, (groups, st) in enumerate(zip(steps, streamed)):
         if only_last and k != len(steps) - 1:
             continue
+        if stride > 1 and k % stride != 0 and k != len(steps) - 1:
+            continue                              # long histories: every `stride`-th sample and the last one are judged
         silence = g.stream_silence(steps, k)
         if silence >= Fraction(19, 10):
             # some component has been silent for the data age (2 s): the pool's fetcher reports it as "stopped sending
@@ -404,6 +453,10 @@ def check_stream(ctx: Ctx, steps: list[list[dict]], rng: random.Random, cases: l
                         ("stream:one-component-changed" if len(changed) == 1 else "stream:several-components-changed"))
             rel = [abs(Fraction(c1[x]) - Fraction(c0[x])) / abs(Fraction(c0[x])) for p, c in zip(prev, cur)
                    for c0, c1 in zip(p, c) for x in ("il", "el", "eu", "iu") if c0[x] != c1[x] and Fraction(c0[x]) != 0]
+            if rel and max(rel) < Fraction(1, 10**6):
+                tags.append("stream:change<1e-6-relative")
+            if len(steps) >= 100:
+                tags.append("stream:long-history(>=100 samples)")
             if rel and max(rel) < Fraction(1, 1000):
                 tags.append("stream:drift<0.1%")
             elif rel:
@@ -495,6 +548,12 @@ def run(ctx: Ctx) -> None:
     # histories: the bounds a subscriber sees after every sample vs the manager on the same latest data
     for i in range(ctx.budget(45, 700)):
         check_stream(ctx, gen_stream_steps(ctx.subrng("stream", i)), ctx.subrng("stream-powers", i), cases, outs)
+    # tiny relative changes of one bound per sample (1e-7 … 1 ulp), and long slow drifts of one 1:1 set
+    for i in range(ctx.budget(25, 300)):
+        check_stream(ctx, gen_tiny_history(ctx.subrng("stream-tiny", i)), ctx.subrng("stream-tiny-powers", i), cases, outs)
+    for i in range(ctx.budget(2, 12)):
+        check_stream(ctx, gen_tiny_history(ctx.subrng("stream-long", i), long=True), ctx.subrng("stream-long-powers", i),
+                     cases, outs, stride=60)
     if ctx.tier == "thorough":
         # bounded-exhaustive small scope: two 1:1 battery sets, every combination of exclusion / inclusion bounds from a
         # small lattice on the battery and on the inverter (symmetric lower bounds), powers on/next to every bound
